@@ -204,16 +204,16 @@ def gen_simdpkg(hdir, st):
     st["simdpkg"] = ok
 
 
-def build_variant(name, env_extra):
-    """harness built for another configuration (GOAMD64=v3, GOARCH=386)"""
+def build_variant(name, env_extra, gobin="go"):
+    """harness built for another configuration (GOAMD64=v3, GOARCH=386, another installed toolchain)"""
     hdir = os.path.join(VERIF, "harness")
     hb = os.path.join(BUILD, "bin", "harness_" + name)
     env = dict(GOENV)
     env.update(env_extra)
     with Lock(os.path.join(BUILD, ".lock")):
-        rc, out, _ = run(["go", "build", "-tags", "verif,verif_internals", "-o", hb, "."], cwd=hdir, env=env, timeout=900)
+        rc, out, _ = run([gobin, "build", "-tags", "verif,verif_internals", "-o", hb, "."], cwd=hdir, env=env, timeout=900)
         if rc != 0:
-            rc, out, _ = run(["go", "build", "-tags", "verif", "-o", hb, "."], cwd=hdir, env=env, timeout=900)
+            rc, out, _ = run([gobin, "build", "-tags", "verif", "-o", hb, "."], cwd=hdir, env=env, timeout=900)
             if rc != 0:
                 raise Infra("harness variant %s does not build:\n%s" % (name, out[-3000:]))
     return hb
